@@ -129,6 +129,22 @@ def run(ctx) -> None:
         call(ctx, vectors, ("uint8", "int64", "float64")[i % 3], "table2")
     ctx.exhaustive.append("qartod_compare: k=1..3 vectors x length 1 over 14 (symbol, poison) options; k=2 x length 2 "
                           + ("complete" if ctx.thorough else "every 4th case"))
+    # non-flag values of every kind are ignored: fractions, values that wrap to a flag modulo 256, negatives
+    for _ in range(ctx.pick(400, 3000)):
+        k = rng.choice([1, 2, 3])
+        n = rng.choice([1, 2, 4])
+        dtype = rng.choice(["float64", "int64", "float32"])
+        odd = [3.6, 4.5, 1.5, 8.999, 260.0, 259.0, 265.0, -252.0, -1.0, 1e9] if dtype != "int64" else [260, 259, 265, -252, -1, 257, 1000000]
+        vectors = [[(rng.choice(odd), False) if rng.random() < 0.5 else (rng.choice([1, 2, 3, 4, 9]), rng.random() < 0.2)
+                    for _ in range(n)] for _ in range(k)]
+        arrs = [build(v, dtype) for v in vectors]
+        logi = [[None if m else (int(d) if float(d) == int(d) and abs(d) < 1e6 else float(d)) for d, m in v] for v in vectors]
+        expect = models.compare(logi)
+        o, _ = client.expect(ctx, "C04", "qartod.qartod_compare", {"vectors": arrs}, lambda: [frozenset([e]) for e in expect],
+                             logical={"vectors": logi, "dtype": dtype}, hist="qartod_compare")
+        ctx.count("compare.calls")
+        ctx.count("compare.odd_nonflag_calls")
+        ctx.case(f"odd-nonflags|k{k}|n{n}|{dtype}")
     for _ in range(ctx.pick(1500, 8000)):
         k = rng.choice([1, 2, 3, 4, 6])
         n = rng.choice([1, 2, 5, 17, 50])
